@@ -168,3 +168,58 @@ type VerifCowList struct{ l cowHostList }
 func (v *VerifCowList) Add(h *HostInfo) bool  { return v.l.add(h) }
 func (v *VerifCowList) Remove(ip net.IP) bool { return v.l.remove(ip) }
 func (v *VerifCowList) Get() []*HostInfo      { return v.l.get() }
+
+// VerifPool is a snapshot of one host's connection pool.
+type VerifPool struct {
+	HostID  string
+	Addr    string
+	Size    int // configured size
+	Conns   []*Conn
+	Closed  bool
+	Filling bool
+}
+
+// VerifPoolSnapshot returns the state of every host pool of the session.
+func VerifPoolSnapshot(s *Session) []VerifPool {
+	s.pool.mu.RLock()
+	pools := make([]*hostConnPool, 0, len(s.pool.hostConnPools))
+	for _, p := range s.pool.hostConnPools {
+		pools = append(pools, p)
+	}
+	s.pool.mu.RUnlock()
+	out := make([]VerifPool, 0, len(pools))
+	for _, p := range pools {
+		p.mu.RLock()
+		vp := VerifPool{HostID: p.host.HostID(), Addr: p.host.ConnectAddress().String(), Size: p.size, Closed: p.closed, Filling: p.filling}
+		vp.Conns = append(vp.Conns, p.conns...)
+		p.mu.RUnlock()
+		out = append(out, vp)
+	}
+	return out
+}
+
+// VerifControlConn returns the current control connection (nil if none).
+func VerifControlConn(s *Session) *Conn {
+	if s.control == nil {
+		return nil
+	}
+	ch := s.control.getConn()
+	if ch == nil {
+		return nil
+	}
+	return ch.conn
+}
+
+// VerifConnInfo reports the number of calls registered on the connection and its capacity.
+func VerifConnInfo(c *Conn) (calls int, numStreams int, closed bool) {
+	c.mu.Lock()
+	defer c.mu.Unlock()
+	return len(c.calls), c.streams.NumStreams, c.closed
+}
+
+// VerifPreparedCacheLen returns the number of entries in the session's prepared-statement cache.
+func VerifPreparedCacheLen(s *Session) int {
+	s.stmtsLRU.mu.Lock()
+	defer s.stmtsLRU.mu.Unlock()
+	return s.stmtsLRU.lru.Len()
+}
